@@ -47,6 +47,8 @@ HOSTILE_RULES = ["FREQ=DAILY", "FREQ=DAILY;UNTIL=20000101T000000Z", "FREQ=WEEKLY
                  "FREQ=DAILY;UNTIL=20200101T000000Z/PT1H", "FREQ=DAILY;UNTIL=20200101T000000Z/20200102T000000",
                  "FREQ=DAILY;UNTIL=-PT1H;COUNT=+2", "FREQ=DAILY;BYDAY=+1MO,-53SU,0TU", "FREQ=DAILY;WKST=1MO",
                  "FREQ=DAILY;X-UNKNOWN=a\\,b;BYDAY=MO"]
+HOSTILE_COMPONENTS = ["DAYLIGHT", "STANDARD", "VEVENT", "VTIMEZONE", "VALARM", "VCALENDAR", "VFREEBUSY", "X-UNKNOWN", "",
+                      "daylight", "VTODO"]
 TOKENS = {
     b"FREQ=YEARLY": [b"FREQ=SECONDLY", b"FREQ=MINUTELY", b"FREQ=HOURLY", b"FREQ=DAILY;INTERVAL=0", b"FREQ=", b"FREQ=NEVER"],
     b"FREQ=MONTHLY": [b"FREQ=SECONDLY", b"FREQ=YEARLY;BYSECOND=1,2,3"],
@@ -179,6 +181,8 @@ def draw(rng, doc, kind, other=b""):
             if u.startswith((b"RRULE", b"EXRULE")):
                 cands.append((i, "rrule"))
                 cands.append((i, "rrule"))
+            if u.startswith(b"BEGIN:"):
+                cands.append((i, "component"))
             if u.startswith((b"DTSTART", b"DTEND", b"DUE", b"RDATE", b"EXDATE", b"RECURRENCE-ID", b"FREEBUSY", b"TRIGGER",
                              b"DTSTAMP", b"CREATED", b"LAST-MODIFIED", b"COMPLETED")):
                 cands.append((i, "date"))
@@ -187,7 +191,8 @@ def draw(rng, doc, kind, other=b""):
         i, what = rng.choice(cands)
         pool = {"tzid-param": HOSTILE_TZIDS, "tzid-prop": HOSTILE_TZIDS, "offset": HOSTILE_OFFSETS,
                 "date": HOSTILE_DATES, "rrule": HOSTILE_RULES, "duration": HOSTILE_DURATIONS,
-                "number": HOSTILE_NUMBERS, "uri": HOSTILE_URIS, "text": HOSTILE_TEXTS}[what]
+                "number": HOSTILE_NUMBERS, "uri": HOSTILE_URIS, "text": HOSTILE_TEXTS,
+                "component": HOSTILE_COMPONENTS}[what]
         return {"kind": kind, "i": i, "what": what, "value": rng.choice(pool)}
     if kind == "token_subst":
         present = [t for t in sorted(TOKENS) if t in doc]
